@@ -888,6 +888,12 @@ func (v Value) toReflectValue(typ reflect.Type) (reflect.Value, error) {
 				return exported.Convert(typ), nil
 			}
 			return reflect.Value{}, fmt.Errorf("TypeError: could not convert %v to reflect.Type: %v", exported, typ)
+		case valueUndefined, valueNull:
+			// reflect.ValueOf(nil) is the invalid Value, which Set and SetMapIndex reject with a panic.
+			if kind == reflect.Interface {
+				return reflect.Zero(typ), nil
+			}
+			return reflect.Value{}, fmt.Errorf("TypeError: could not convert %v to reflect.Type: %v", v, typ)
 		case valueEmpty, valueResult, valueReference:
 			// These are invalid, and should panic
 		default:
